@@ -32,6 +32,8 @@ var c06Users = []seedUser{
 	{Name: "Usr-Theta", PW: "Theta-password-5", Admin: true, PID: 1},
 	// '@' is a legal character in user names: another account, and an admin, whatever a frontend thinks of realms
 	{Name: "usr-theta@corp", PW: "corp-password-6", Admin: true, PID: 1},
+	// an ordinary user whose *name* contains the administrators' file extension (file usr.admin.user)
+	{Name: "usr.admin", PW: "dotadmin-password-7", Admin: false, PID: 1},
 }
 
 type c06Req struct {
@@ -57,7 +59,7 @@ var c06Targets = []string{"adm-zeta", "adm-eta", "usr-theta", "usr-iota", "new-k
 
 func genC06(t *rapid.T) []c06Req {
 	var reqs []c06Req
-	actors := []string{"adm-zeta", "adm-eta", "usr-theta", "usr-iota", "new-kappa"}
+	actors := []string{"adm-zeta", "adm-eta", "usr-theta", "usr-iota", "new-kappa", "usr.admin"}
 	tag := 0
 	for i, n := 0, rapid.IntRange(3, 25).Draw(t, "nreq"); i < n; i++ {
 		ep := rapid.SampledFrom([]string{"authenticate", "authenticate", "add", "remove", "update", "update", "update", "set-admin", "list", "list-full", "basic-auth", "advance",
